@@ -32,6 +32,7 @@ type c12Layout struct {
 	Base      uint64 `json:"base"`            // first decode time
 	Cto       int32  `json:"cto"`             // composition offset of the first sample
 	LeadIn    int    `json:"lead_in"`         // unused bytes at the start of each mdat payload
+	MdatLarge bool   `json:"mdat_large,omitempty"` // every mdat with the 64-bit (largesize) header form
 	AudioOnly bool   `json:"audio_only,omitempty"`
 	// AudioFirst (two tracks): track 1 is the audio track (timescale 600) and track 2 the video track that carries the
 	// partition; the reference track of an index is the video track wherever it stands
@@ -115,7 +116,7 @@ func c12Build(l *c12Layout) *c12Built {
 				}
 				ss = append(ss, s)
 			}
-			fr := gen.FFragment{Runs: []gen.FRun{{TrackID: refID, Samples: ss}}, LeadIn: l.LeadIn}
+			fr := gen.FFragment{Runs: []gen.FRun{{TrackID: refID, Samples: ss}}, LeadIn: l.LeadIn, MdatLarge: l.MdatLarge}
 			split := (l.Form == 3 || l.Form == 4) && len(ss) == 2
 			if split {
 				fr.Runs = []gen.FRun{{TrackID: refID, Samples: ss[:1]}}
@@ -699,6 +700,9 @@ func c12Layouts(thorough bool) []*c12Layout {
 									continue
 								}
 								out = append(out, &c12Layout{Shape: sh, Tracks: tracks, Mech: mech, Emsg: emsg, SegSidx: ss, Base: uint64(tm[0]), Cto: int32(tm[1]), LeadIn: lead})
+								if thorough || (lead == 0 && emsg != 2 && ss != 2) {
+									out = append(out, &c12Layout{Shape: sh, Tracks: tracks, Mech: mech, Emsg: emsg, SegSidx: ss, Base: uint64(tm[0]), Cto: int32(tm[1]), LeadIn: lead, MdatLarge: true})
+								}
 								if tracks == 2 && (thorough || (lead == 0 && emsg == 0 && ss == 0)) {
 									out = append(out, &c12Layout{Shape: sh, Tracks: tracks, Mech: mech, Emsg: emsg, SegSidx: ss, Base: uint64(tm[0]), Cto: int32(tm[1]), LeadIn: lead, AudioFirst: true})
 								}
@@ -727,7 +731,7 @@ func runC12(c *vf.Ctx) {
 	} else {
 		c.SetBudget(3 * 60 * 1e9)
 	}
-	c.Rule = "files are generated from an intended partition (ground truth by construction) with a raw writer: shapes of 1-3 segments x 1-2 (thorough: 3) fragments, 1-2 tracks (video+audio in either order, the audio track in another timescale when it comes first), delimiter mechanism {styp, one top-level sidx, two sequential top-level sidx, mfra/tfra, none}, for the top-level indexes with and without a free box between index and first segment (first_offset != 0), emsg {none, first fragment of each segment, every fragment}, 0/1/2 sidx inside each styp segment, first decode time/composition offset {0/0, 7/0, 7/2}, 0 or 4 unused bytes at the start of each mdat, reference-track runs in 5 forms (explicit durations / tfhd default / trex default, one or two truns per traf); decoded with all four flag combinations (ISM, start-on-moof) by both decoders; partition, order, byte-identical segment-mode re-encode, then UpdateSidx(add, nonZeroEPT in {false,true}) + Encode through the API and through the add-sidx example (overlay driver), with the written index checked against the actual box positions by an independent walker. A case = (layout, flags, decoder)."
+	c.Rule = "files are generated from an intended partition (ground truth by construction) with a raw writer: shapes of 1-3 segments x 1-2 (thorough: 3) fragments, 1-2 tracks (video+audio in either order, the audio track in another timescale when it comes first), delimiter mechanism {styp, one top-level sidx, two sequential top-level sidx, mfra/tfra, none}, for the top-level indexes with and without a free box between index and first segment (first_offset != 0), emsg {none, first fragment of each segment, every fragment}, 0/1/2 sidx inside each styp segment, first decode time/composition offset {0/0, 7/0, 7/2}, 0 or 4 unused bytes at the start of each mdat, mdat boxes with the 32-bit and with the 64-bit header form, reference-track runs in 5 forms (explicit durations / tfhd default / trex default, one or two truns per traf); decoded with all four flag combinations (ISM, start-on-moof) by both decoders; partition, order, byte-identical segment-mode re-encode, then UpdateSidx(add, nonZeroEPT in {false,true}) + Encode through the API and through the add-sidx example (overlay driver), with the written index checked against the actual box positions by an independent walker. A case = (layout, flags, decoder)."
 	c.Bound = "<= 3 segments x <= 2 (thorough: 3) fragments x <= 2 tracks; 1-2 samples per fragment"
 	layouts := c12Layouts(thorough)
 	c.Set("layouts", len(layouts))
